@@ -5,6 +5,7 @@ import BW.Proofs.Query
 import BW.Proofs.QueryPost
 import BW.Proofs.Determinism
 import BW.Proofs.HooksOrder
+import BW.Proofs.HooksHead
 
 namespace BW.Props.C12
 open BW.Model BW.Proofs.Query BW.Proofs.QueryPost
@@ -78,6 +79,13 @@ theorem repeated_keys_change_nothing (S : Strs) (cfg cfg' : List (Bytes × Bool)
 example : BW.Model.Hooks.orderCheck [([63, 97], true), ([63, 98], false), ([63, 97], true)] = some [([63, 97], true), ([63, 98], false)] ∧
     BW.Model.Hooks.orderCheck [([63, 97], true), ([63, 97], false)] = none := by decide
 
+/-- LIMIT means what it says: the semantic hook (`limitCollection`) turns `LIMIT "n"^^type:int64` with
+    `n ≥ 0` into the limit `n`, changing nothing else, and rejects a negative `n`. -/
+theorem limit_means_its_token (h : BW.Model.Hooks.Head) (n : Int) :
+    BW.Proofs.HooksHead.optRun BW.Model.Hooks.limitStep h [BW.Proofs.HooksHead.tk .limit_, BW.Proofs.HooksHead.intTk n] =
+      if n < 0 then none else some { h with limit := some n } :=
+  BW.Proofs.HooksHead.limit_denote h n
+
 end BW.Props.C12
 
 #print axioms BW.Props.C12.order_by_perm
@@ -92,3 +100,4 @@ end BW.Props.C12
 #print axioms BW.Props.C12.pushdown_only_when_harmless
 #print axioms BW.Props.C12.order_by_sorted
 #print axioms BW.Props.C12.repeated_keys_change_nothing
+#print axioms BW.Props.C12.limit_means_its_token
